@@ -50,6 +50,9 @@ pub enum VOp {
     Prune { src: usize, target: String, via: Option<String> },
     /// 0: value as machine input through `iden`; 1: scribe after an all-ones frame was dropped
     Machine { src: usize, route: u8 },
+    /// value as machine input through a seeded copy program (iden / take / drop / pair / injl / injr
+    /// / unit, chosen by the shape of the type): copies at every read and write alignment
+    MachineCopy { src: usize, seed: u64 },
     Clone { src: usize },
 }
 
@@ -74,6 +77,7 @@ fn op_json(o: &VOp) -> Json {
         VOp::WrapSum { src, other, left } => json!(["wrap_sum", src, other, left]),
         VOp::Prune { src, target, via } => json!(["prune", src, target, via]),
         VOp::Machine { src, route } => json!(["machine", src, route]),
+        VOp::MachineCopy { src, seed } => json!(["machine-copy", src, seed]),
         VOp::Clone { src } => json!(["clone", src]),
     }
 }
@@ -108,6 +112,7 @@ fn op_from(j: &Json) -> Option<VOp> {
         "wrap_sum" => VOp::WrapSum { src: ju(&j[1]) as usize, other: s(2)?, left: j[3].as_bool()? },
         "prune" => VOp::Prune { src: ju(&j[1]) as usize, target: s(2)?, via: s(3) },
         "machine" => VOp::Machine { src: ju(&j[1]) as usize, route: ju(&j[2]) as u8 },
+        "machine-copy" => VOp::MachineCopy { src: ju(&j[1]) as usize, seed: ju(&j[2]) },
         "clone" => VOp::Clone { src: ju(&j[1]) as usize },
         _ => return None,
     })
@@ -639,6 +644,116 @@ fn machine_iden(input: &Value, fin: &Arc<Final>) -> Option<Value> {
     mac.exec(&prog, &CoreEnv::new()).ok()
 }
 
+/// A copy program: every leaf of its output is a piece of its input (or unit).
+#[derive(Clone, Debug)]
+enum CT {
+    Iden,
+    Unit,
+    Take(Box<CT>),
+    Drop(Box<CT>),
+    Pair(Box<CT>, Box<CT>),
+    InjL(Box<CT>, Rc<MT>),
+    InjR(Rc<MT>, Box<CT>),
+}
+
+/// Seeded, type-directed copy program over source type `t`.
+fn gen_ct(r: &mut Rng, t: &Rc<MT>, depth: usize) -> CT {
+    let is_prod = matches!(shape(t), Shape::Prod(..));
+    if depth == 0 {
+        return CT::Iden;
+    }
+    let small = |r: &mut Rng| -> Rc<MT> {
+        match r.below(4) {
+            0 => Rc::new(MT::Unit),
+            1 => Rc::new(MT::Word(r.below(4) as u8)),
+            2 => mt_prod(Rc::new(MT::Word(0)), Rc::new(MT::Word(r.below(3) as u8))),
+            _ => mt_sum(Rc::new(MT::Unit), Rc::new(MT::Word(r.below(4) as u8))),
+        }
+    };
+    match r.weighted(&[3, if is_prod { 5 } else { 0 }, if is_prod { 5 } else { 0 }, 4, 2, 2, 1]) {
+        0 => CT::Iden,
+        1 | 2 => {
+            let (a, b) = match shape(t) {
+                Shape::Prod(a, b) => (a, b),
+                _ => return CT::Iden,
+            };
+            if r.bool() {
+                CT::Take(Box::new(gen_ct(r, &a, depth - 1)))
+            } else {
+                CT::Drop(Box::new(gen_ct(r, &b, depth - 1)))
+            }
+        }
+        3 => CT::Pair(Box::new(gen_ct(r, t, depth - 1)), Box::new(gen_ct(r, t, depth - 1))),
+        4 => CT::InjL(Box::new(gen_ct(r, t, depth - 1)), small(r)),
+        5 => CT::InjR(small(r), Box::new(gen_ct(r, t, depth - 1))),
+        _ => CT::Unit,
+    }
+}
+
+/// What the copy program computes, in the model.
+fn eval_ct(ct: &CT, v: &Rc<MV>, t: &Rc<MT>) -> Option<(Rc<MV>, Rc<MT>)> {
+    Some(match ct {
+        CT::Iden => (v.clone(), t.clone()),
+        CT::Unit => (Rc::new(MV::Unit), Rc::new(MT::Unit)),
+        CT::Take(c) | CT::Drop(c) => {
+            let (a, b) = match shape(t) {
+                Shape::Prod(a, b) => (a, b),
+                _ => return None,
+            };
+            let (x, y) = match vshape(v, t) {
+                VShape::P(x, y) => (x, y),
+                _ => return None,
+            };
+            if matches!(ct, CT::Take(_)) {
+                eval_ct(c, &x, &a)?
+            } else {
+                eval_ct(c, &y, &b)?
+            }
+        }
+        CT::Pair(c, d) => {
+            let (x, xt) = eval_ct(c, v, t)?;
+            let (y, yt) = eval_ct(d, v, t)?;
+            (mv_prod(x, &xt, y, &yt), mt_prod(xt, yt))
+        }
+        CT::InjL(c, other) => {
+            let (x, xt) = eval_ct(c, v, t)?;
+            (mv_left(x, &xt, other), mt_sum(xt, other.clone()))
+        }
+        CT::InjR(other, c) => {
+            let (x, xt) = eval_ct(c, v, t)?;
+            (mv_right(x, other, &xt), mt_sum(other.clone(), xt))
+        }
+    })
+}
+
+fn build_ct<'a>(ctx: &types::Context<'a>, ct: &CT) -> Option<Arc<ConstructNode<'a>>> {
+    type N<'a> = Arc<ConstructNode<'a>>;
+    Some(match ct {
+        CT::Iden => N::iden(ctx),
+        CT::Unit => N::unit(ctx),
+        CT::Take(c) => N::take(&build_ct(ctx, c)?),
+        CT::Drop(c) => N::drop_(&build_ct(ctx, c)?),
+        CT::Pair(c, d) => N::pair(&build_ct(ctx, c)?, &build_ct(ctx, d)?).ok()?,
+        CT::InjL(c, _) => N::injl(&build_ct(ctx, c)?),
+        CT::InjR(_, c) => N::injr(&build_ct(ctx, c)?),
+    })
+}
+
+/// Run the copy program on the real machine with `input` as its input.
+fn machine_copy(input: &Value, src: &Arc<Final>, ct: &CT, target: &Arc<Final>) -> Option<Value> {
+    let prog = types::Context::with_context(|ctx| {
+        let p = build_ct(&ctx, ct)?;
+        let s = types::Type::complete(&ctx, Arc::clone(src));
+        let t = types::Type::complete(&ctx, Arc::clone(target));
+        ctx.unify(&p.arrow().source, &s, "pin source").ok()?;
+        ctx.unify(&p.arrow().target, &t, "pin target").ok()?;
+        p.finalize_unpruned().ok()
+    })?;
+    let mut mac = BitMachine::for_program(&prog).ok()?;
+    mac.input(input).ok()?;
+    mac.exec(&prog, &CoreEnv::new()).ok()
+}
+
 /// comp(comp(scribe(ones), unit), comp(scribe(v), iden)) : 1 -> T, target pinned to T.
 fn machine_residue(v: &Value, fin: &Arc<Final>) -> Option<Value> {
     let w = fin.bit_width();
@@ -991,6 +1106,30 @@ fn exec(plan: &Plan, mode: Mode, st: &mut Stats) -> Result<(), Viol> {
                     }
                 }
             }
+            VOp::MachineCopy { src, seed } => {
+                if n > 0 {
+                    let e = &pool[src % n];
+                    if width(&e.mt) <= 4096 {
+                        let ct = gen_ct(&mut Rng::new(*seed), &e.mt, 4);
+                        if let Some((mv, mt)) = eval_ct(&ct, &e.mv, &e.mt) {
+                            if width(&mt) > 0 && width(&mt) <= 16384 {
+                                match machine_copy(&e.value, &to_final(&e.mt), &ct, &to_final(&mt)) {
+                                    Some(o) => {
+                                        st.machine_runs += 1;
+                                        routes |= 4096;
+                                        new.push(Entry { value: o, mv, mt, route: "machine-copy" });
+                                    }
+                                    None => {
+                                        if mode == Mode::C10 {
+                                            return Err(viol("C10-machine", "machine-copy:no-output", format!("copy program {:?} over {} did not run", ct, mt_to_string(&e.mt))));
+                                        }
+                                    }
+                                }
+                            }
+                        }
+                    }
+                }
+            }
             VOp::Clone { src } => {
                 if n > 0 {
                     let e = &pool[src % n];
@@ -1209,7 +1348,7 @@ fn gen_plan(r: &mut Rng) -> Plan {
     // model shadow of the pool: mirrors which entries `exec` adds, so that follow-up ops
     // (prune targets, extraction paths) are meaningful for the entry they name
     let mut shadow: Vec<(Rc<MT>, Rc<MV>)> = Vec::new();
-    let mut w: [u32; 12] = [6, 1, 1, 1, 4, 6, 6, 5, 4, 6, 4, 2];
+    let mut w: [u32; 13] = [6, 1, 1, 1, 4, 6, 6, 5, 4, 6, 4, 2, 4];
     for x in w.iter_mut().skip(1) {
         if r.chance(1, 5) {
             *x = 0;
@@ -1373,6 +1512,20 @@ fn gen_plan(r: &mut Rng) -> Plan {
                     }
                 }
             }
+            12 => {
+                let src = r.usize_below(n);
+                let seed = r.next_u64();
+                ops.push(VOp::MachineCopy { src, seed });
+                let (t, v) = shadow[src].clone();
+                if width(&t) <= 4096 {
+                    let ct = gen_ct(&mut Rng::new(seed), &t, 4);
+                    if let Some((mv, mt)) = eval_ct(&ct, &v, &t) {
+                        if width(&mt) > 0 && width(&mt) <= 16384 {
+                            shadow.push((mt, mv));
+                        }
+                    }
+                }
+            }
             _ => {
                 let src = r.usize_below(n);
                 ops.push(VOp::Clone { src });
@@ -1404,7 +1557,7 @@ impl ValSim {
         out.count("prune_some", st.prunes_some);
         out.count("prune_none", st.prunes_none);
         out.count("prune_incompatible_target_but_pathwise_value", st.prunes_incompatible_but_some);
-        for (i, name) in ["ctor", "zero", "buffer8", "ctx8", "dec_compact", "dec_padded_dirty", "extract", "embed", "wrap_sum", "prune", "machine_iden", "machine_residue"].iter().enumerate() {
+        for (i, name) in ["ctor", "zero", "buffer8", "ctx8", "dec_compact", "dec_padded_dirty", "extract", "embed", "wrap_sum", "prune", "machine_iden", "machine_residue", "machine_copy"].iter().enumerate() {
             if st.routes & (1 << i) != 0 {
                 out.count(&format!("route_{}", name), 1);
             }
@@ -1518,6 +1671,7 @@ impl Engine for ValSim {
             "route_prune",
             "route_machine_iden",
             "route_machine_residue",
+            "route_machine_copy",
             "route_buffer8",
             "route_ctx8",
             "dont_care_bits_corrupted",
